@@ -573,6 +573,13 @@ def part_knots(rep, rng, drv, tier, A, E, cases=None):
                 ln = rng.randint(1, 6)
                 ns = [rng.randint(0, 6) for _ in range(ln)]
             cases.append((spec, a, b, ns, None if rng.random() < 0.7 else G.log_uniform(rng, 1e-13, 1e-9)))
+        # small error levels, every run (the stop test of the search is RELATIVE: it must work at error levels of 1e-6 ... 1e-9 just as it
+        # does at 1e-2; an absolute term hidden in it, e.g. the default atol of np.isclose, only shows here)
+        low = [(G.spec("exp", 1.0), 0.0, 1.0, [5, 5]), (G.spec("exp", 1.0), 0.0, 1.0, [4, 4]),
+               (G.spec("pow", 2.5), 1.0, 2.0, [4, 5]), (G.spec("exp", -0.5), -1.0, 1.0, [5, 6])]
+        for spec_, a_, b_, ns_ in (low[:2] + [low[2 + rng.randrange(2)]] if tier == "quick" else low):
+            rep.count("knots_small_error_level(<=1e-6)")
+            cases.append((spec_, a_, b_, ns_, None))
         # explicit atol that is a small but not negligible fraction (1 % .. 10 %) of the levelled error (the docstring suggests raising
         # atol on numerical trouble): the error level is estimated by a default-atol call on the same problem first
         for ci in range(6 if tier == "quick" else 40):
